@@ -568,3 +568,19 @@ _EXTRA4 = {
 for _k, _t in _EXTRA4.items():
     PROPS[_k]["level_note"] = (PROPS[_k].get("level_note", "") + " " + _t).strip()
 FIX_COMMITS.append("9f411cc")
+
+# C20 over TCP: exit-under-load and membership-during-set-up need a few hundred scenarios per hit
+for _r in PROPS["C20"]["runs"]:
+    if _r["engine"] == "tcp" and _r.get("build", "main") == "main":
+        _r["quick"] = 640
+_EXTRA5 = {
+    "C05": ("Thread engine: half of the scenarios run without the lock-ordered tap (its own tree-lock round trip would order the exiting thread behind a linker) and pair LINK_IN_LOCK "
+            "with CLEANUP_AFTER_TERMINATE (a bounded wait under the tree lock); a third pick a childless victim and aim the concurrent link / spawn_linked operations at it."),
+    "C16": "v2 (alt build): in a third of the E-A bursts the dispatcher is not allowed to run before the next scheduled subscribe / stop, so that these land in the same dispatcher batch as the sends before them.",
+    "C19": "The derived enum has an rpc variant whose only field is the reply port; a Call for it with argument bytes must not reach the handler (clause trailing-args-accepted).",
+    "C20": ("E-A: one cut in three is caused by stopping one of the session's proxies by hand (the session ends abnormally), followed by the same reconnect clauses. E-TCP: casts keep flowing to an "
+            "actor through its proxy while it stops, and after a fence call through the same session the proxy must have been asked to stop; many pre-existing groups plus a thread joining fresh "
+            "groups across the session set-up, and after a fence every such group must contain the session's proxy (B's session ids are advanced by 8 idle connections so that the two sessions' proxy ids differ)."),
+}
+for _k, _t in _EXTRA5.items():
+    PROPS[_k]["level_note"] = (PROPS[_k].get("level_note", "") + " " + _t).strip()
